@@ -353,6 +353,8 @@ class Driver:
             ret = self.real.do(a, arg)
         if ret != act["ret"]:
             return "call outcome %r, spec %r (warnings %r)" % (ret, act["ret"], self.real.warned)
+        if to.get("taint") and not frm.get("taint") and a != "Delete":
+            return None      # double row switch (deviation rsw2): which object the identity map keeps is hash order
         return self.compare(act)
 
     def fail_redo(self, frm, k):
